@@ -34,6 +34,10 @@ def _env(seed=None, extra=None):
 def classify(c, m):
     if c == m:
         return "same"
+    if c == "SIDE ok" and m.startswith("SIDE ok skipped:"):   # a structure the protocol cannot carry (infinite initiator set, hole in objs[])
+        return "same"
+    if c == "SMUT ok" and m.startswith("SMUT ok "):
+        return "same"
     if c == "TMUT ok" and m.startswith("TMUT ok "):      # the model adds its own verdict / hwloc's load status (statistics only)
         return "same"
     if m == "FIX ok-modulo-support" and EXCLUDE_SUPPORT_SECTION_WHEN_NOT_IMPORTED:
@@ -68,6 +72,25 @@ def split(ops, cl, ml):
             cur["ntree"] = cur.get("ntree", 0) + 1
         if o.startswith("TM "):
             cur.setdefault("muts", []).append(o.split()[1] + ":" + (m[8:] if m.startswith("TMUT ok ") else "FAIL"))
+        if o == "SJ":
+            cur["nside"] = cur.get("nside", 0) + 1
+            if m.startswith("SIDE ok skipped"):
+                cur["nsideskip"] = cur.get("nsideskip", 0) + 1
+        if o.startswith(("SD o", "ST o", "SK o")):
+            cur["nsideitems"] = cur.get("nsideitems", 0) + 1
+            tk = o.split()
+            kind = ("distances-hetero" if tk[2] == "1" else "distances-homogeneous") if tk[0] == "SD" else \
+                   (("memattr-target-with-initiators" if tk[6:] else "memattr-target-plain") if tk[0] == "ST" else
+                    ("cpukind-forced-efficiency" if tk[3] != "-1" else "cpukind"))
+            cur.setdefault("sidekinds", []).append(kind)
+            if tk[0] == "SD" and int(tk[6]) > 10:
+                cur["sidekinds"].append("distances-more-than-10-objects")
+            if tk[0] == "ST" and any(x.startswith("c") for x in tk[6::2]):
+                cur["sidekinds"].append("memattr-cpuset-initiator")
+            if tk[0] == "ST" and any(x.startswith("o") for x in tk[6::2]):
+                cur["sidekinds"].append("memattr-object-initiator")
+        if o.startswith("SU "):
+            cur.setdefault("smuts", []).append(o.split()[1] + ":" + (m[8:] if m.startswith("SMUT ok ") else "FAIL"))
         if o.startswith("TO "):
             cur["ntreeobj"] = cur.get("ntreeobj", 0) + 1
         if o.startswith("CRASH"):
@@ -117,7 +140,7 @@ def annotate(binp, d, script, env=None):
     for i, l in enumerate(o):
         if l.startswith("OBJ ") and i < len(c) and i < len(m) and classify(c[i], m[i]) != "diff":
             continue
-        if l.startswith(("CMP", "FIX", "CRASH", "LOADFAIL", "OBJ ")) or l == "TJ" or l.startswith("TM ") or l.startswith(UNIT):
+        if l.startswith(("CMP", "FIX", "CRASH", "LOADFAIL", "OBJ ")) or l in ("TJ", "SJ") or l.startswith(("TM ", "SU ")) or l.startswith(UNIT):
             ci = c[i] if i < len(c) else "<none>"
             mi = m[i] if i < len(m) else "<none>"
             out.append("#   %s | %s | %s%s" % (l[:1500], ci[:300], mi[:400], "" if classify(ci, mi) != "diff" else "   <== DIFFERS"))
@@ -207,6 +230,16 @@ def run_engine(tier, seed):
                 bump("tree-level.trees", cs["ntree"])
                 bump("tree-level.objects", cs.get("ntreeobj", 0))
                 njudged += cs["ntree"]
+            if cs.get("nside"):
+                bump("side-level.documents", cs["nside"])
+                bump("side-level.distances+memattr-targets+cpukinds", cs.get("nsideitems", 0))
+                bump("side-level.skipped", cs.get("nsideskip", 0))
+                for k in cs.get("sidekinds", []):
+                    bump("side-level." + k)
+                njudged += cs["nside"]
+            for mu in cs.get("smuts", []):
+                bump("side-level.mutated-document." + mu)
+                njudged += 1
             for mu in cs.get("muts", []):
                 bump("tree-level.mutated-document." + mu)
                 njudged += 1
@@ -234,7 +267,7 @@ def run_engine(tier, seed):
         hits.append("F55 memory object whose cpuset/complete_cpuset differ from its parent's is reloaded with the parent's sets "
                     "(%d cases; judged against the normalised original)" % known_hits["memory-child-sets"])
     if known_hits.get("duplicate-memattr-initiators"):
-        hits.append("F59 restrict clipped two memattr initiator cpusets of one target to the same set; the importer merges the two values "
+        hits.append("F59 restrict clipped two memattr initiator cpusets of one target to the same set (or the later one to a subset of the earlier one); the importer merges the two values "
                     "(%d cases, not judged)" % known_hits["duplicate-memattr-initiators"])
     for k in known_hits:
         if k not in ("support-section", "memory-child-sets", "duplicate-memattr-initiators"):
